@@ -6,6 +6,7 @@ import Mathlib.Algebra.BigOperators.Group.List.Basic
 import PW.Proofs.Basic
 import PW.Ops
 import PW.Props.Tables
+import PW.Proofs.Rotations
 /-!
 # C12 — the built-in operator library equals its mathematical definitions
 
@@ -98,6 +99,25 @@ theorem rz_mul (em₁ ep₁ em₂ ep₂ : R) :
 theorem rx_zero (i : R) : MatEq 2 (rx i 1 0) (ident 2) := by
   intro r c hr hc
   interval_cases r <;> interval_cases c <;> simp [rx, mat2, ident]
+
+/-! ### the library's rotations at real angles (ℂ, `Real.cos`, `Real.sin`, `Complex.exp`) -/
+
+/-- `RX(a) RX(b) = RX(a+b)` for all real angles, negative and beyond 2π included -/
+theorem RX_composes_additively (a b : ℝ) (r c : Nat) (hr : r < 2) (hc : c < 2) :
+    mmul 2 (PW.Rotations.RX a) (PW.Rotations.RX b) [r, c] = PW.Rotations.RX (a + b) [r, c] :=
+  PW.Rotations.RX_add a b r c hr hc
+theorem RY_composes_additively (a b : ℝ) (r c : Nat) (hr : r < 2) (hc : c < 2) :
+    mmul 2 (PW.Rotations.RY a) (PW.Rotations.RY b) [r, c] = PW.Rotations.RY (a + b) [r, c] :=
+  PW.Rotations.RY_add a b r c hr hc
+theorem RZ_composes_additively (a b : ℝ) (r c : Nat) (hr : r < 2) (hc : c < 2) :
+    mmul 2 (PW.Rotations.RZ a) (PW.Rotations.RZ b) [r, c] = PW.Rotations.RZ (a + b) [r, c] :=
+  PW.Rotations.RZ_add a b r c hr hc
+/-- a full turn is the identity up to the global sign −1 -/
+theorem RX_full_turn (θ : ℝ) (r c : Nat) (hr : r < 2) (hc : c < 2) :
+    PW.Rotations.RX (θ + 2 * Real.pi) [r, c] = -(PW.Rotations.RX θ [r, c]) := PW.Rotations.RX_two_pi θ r c hr hc
+/-- sign convention `RX(θ) = exp(−iθX/2)`: the off-diagonal entry is `−i sin(θ/2)` -/
+theorem RX_sign_convention (θ : ℝ) : PW.Rotations.RX θ [0, 1] = -(Complex.I * (Real.sin (θ / 2) : ℂ)) :=
+  PW.Rotations.RX_offdiag θ
 
 /-! ### unitarity (`M M† = 1`) -/
 section unitary
@@ -286,6 +306,11 @@ end PW.Props.C12
 #print axioms PW.Props.C12.ry_mul
 #print axioms PW.Props.C12.rz_mul
 #print axioms PW.Props.C12.rx_zero
+#print axioms PW.Props.C12.RX_composes_additively
+#print axioms PW.Props.C12.RY_composes_additively
+#print axioms PW.Props.C12.RZ_composes_additively
+#print axioms PW.Props.C12.RX_full_turn
+#print axioms PW.Props.C12.RX_sign_convention
 #print axioms PW.Props.C12.rx_unitary
 #print axioms PW.Props.C12.ry_unitary
 #print axioms PW.Props.C12.hadamard_unitary
